@@ -2,6 +2,8 @@
 # usage: tools/sweep.sh <tier> <seed>...   runs every check at the given seeds; prints non-held results
 tier=$1; shift
 cd "$(dirname "$0")/.."
+# under `vp run --with-repo` check the repository snapshot, so edits to /repo do not disturb the sweep
+[ -n "$VP_RUN_REPO" ] && export VERIF_REPO="$VP_RUN_REPO"
 bad=0
 for seed in "$@"; do
   for p in C01 C02 C03 C04 C05 C06 C07 C08 C09 C10 C11 C12 C13 C14 C15 C16 C17 C18 C19; do
